@@ -251,98 +251,46 @@ func forType(t reflect.Type, seen map[reflect.Type]bool, ignore bool, schemas ma
 		// no additional properties are allowed
 		s.AdditionalProperties = falseSchema()
 
-		// If skipPath is non-nil, it is path to an anonymous field whose
-		// schema has been replaced by a known schema.
-		var skipPath []int
-		for _, field := range reflect.VisibleFields(t) {
-			if s.Properties == nil {
-				s.Properties = make(map[string]*Schema)
-			}
-			// Check to see if this field has been promoted from a replaced or renamed
-			// anonymous type.
-			if skipPath != nil {
-				skip := false
-				if len(field.Index) >= len(skipPath) {
-					skip = true
-					for i, index := range skipPath {
-						if field.Index[i] != index {
-							// If we're no longer in a subfield.
-							skip = false
-							break
-						}
+		if t.NumField() > 0 {
+			s.Properties = make(map[string]*Schema)
+		}
+		for _, jf := range jsonFields(t, schemas) {
+			field := jf.sf
+			if override := jf.override; override != nil {
+				// An embedded struct whose schema has been replaced by a known schema.
+				// Type must be object, and only properties can be set.
+				if override.Type != "object" {
+					return nil, fmt.Errorf(`custom schema for embedded struct must have type "object", got %q`,
+						override.Type)
+				}
+				// Check that all keywords relevant for objects are absent, except properties.
+				ov := reflect.ValueOf(override).Elem()
+				for _, sfi := range schemaFieldInfos {
+					if sfi.sf.Name == "Type" || sfi.sf.Name == "Properties" {
+						continue
+					}
+					fv := ov.FieldByIndex(sfi.sf.Index)
+					if !fv.IsZero() {
+						return nil, fmt.Errorf(`overrides for embedded fields can have only "Type" and "Properties"; this has %q`, sfi.sf.Name)
 					}
 				}
-				if skip {
-					continue
-				} else {
-					// Anonymous fields are followed immediately by their promoted fields.
-					// Once we encounter a field that *isn't* promoted, we can stop
-					// checking.
-					skipPath = nil
+
+				keys := make([]string, 0, len(override.Properties))
+				for k := range override.Properties {
+					keys = append(keys, k)
 				}
-			}
-
-			// encoding/json treats an embedded field whose json tag gives it a name
-			// as an ordinary field of that name, and omits one tagged "-" together
-			// with the fields it would promote.
-			// It does the same with an embedded field that is not a struct
-			// (or pointer to struct): such a field is named after its type.
-			tagName, _, _ := strings.Cut(field.Tag.Get("json"), ",")
-			embeddedType := field.Type
-			if embeddedType.Kind() == reflect.Pointer {
-				embeddedType = embeddedType.Elem()
-			}
-			embeddedAsField := field.Anonymous && field.Tag.Get("json") != "-" &&
-				(isValidTag(tagName) || embeddedType.Kind() != reflect.Struct)
-			if field.Anonymous && field.Tag.Get("json") == "-" {
-				skipPath = field.Index
-				continue
-			}
-			if field.Anonymous && !embeddedAsField {
-				override := schemas[field.Type]
-				if override != nil {
-					// Type must be object, and only properties can be set.
-					if override.Type != "object" {
-						return nil, fmt.Errorf(`custom schema for embedded struct must have type "object", got %q`,
-							override.Type)
-					}
-					// Check that all keywords relevant for objects are absent, except properties.
-					ov := reflect.ValueOf(override).Elem()
-					for _, sfi := range schemaFieldInfos {
-						if sfi.sf.Name == "Type" || sfi.sf.Name == "Properties" {
-							continue
-						}
-						fv := ov.FieldByIndex(sfi.sf.Index)
-						if !fv.IsZero() {
-							return nil, fmt.Errorf(`overrides for embedded fields can have only "Type" and "Properties"; this has %q`, sfi.sf.Name)
-						}
-					}
-
-					skipPath = field.Index
-					keys := make([]string, 0, len(override.Properties))
-					for k := range override.Properties {
-						keys = append(keys, k)
-					}
-					slices.Sort(keys)
-					for _, name := range keys {
-						if _, ok := s.Properties[name]; !ok {
-							s.Properties[name] = override.Properties[name].CloneSchemas()
-							s.PropertyOrder = append(s.PropertyOrder, name)
-						}
+				slices.Sort(keys)
+				for _, name := range keys {
+					if _, ok := s.Properties[name]; !ok {
+						s.Properties[name] = override.Properties[name].CloneSchemas()
+						s.PropertyOrder = append(s.PropertyOrder, name)
 					}
 				}
 				continue
-			}
-
-			if embeddedAsField {
-				// Its fields are not promoted.
-				skipPath = field.Index
 			}
 
 			info := fieldJSONInfo(field)
-			if info.omit {
-				continue
-			}
+			info.name = jf.name
 			fs, err := forType(field.Type, seen, ignore, schemas)
 			if err != nil {
 				return nil, err
@@ -402,6 +350,135 @@ func forType(t reflect.Type, seen map[reflect.Type]bool, ignore bool, schemas ma
 		s.Type = ""
 	}
 	return s, nil
+}
+
+// A jsonField is a field of a struct type as encoding/json sees it.
+type jsonField struct {
+	sf       reflect.StructField // sf.Index is the index sequence from the outermost struct
+	name     string              // the name of the member in the JSON object
+	tagged   bool                // name comes from the json tag
+	override *Schema             // for an embedded struct replaced by a TypeSchemas entry
+}
+
+// jsonFields returns the fields of the struct type t that encoding/json
+// marshals, in the order it writes them. It follows the algorithm of
+// encoding/json (typeFields): embedded structs are searched breadth first, an
+// embedded field with a json name or of a non-struct type is an ordinary field,
+// and of several fields with the same JSON name the shallowest wins, a tagged one
+// winning over untagged ones at the same depth; if that does not single out one
+// field, none of them is used.
+//
+// An embedded struct with a non-nil entry in schemas is not descended into;
+// it is returned as one element with override set.
+func jsonFields(t reflect.Type, schemas map[reflect.Type]*Schema) []jsonField {
+	type queued struct {
+		typ   reflect.Type
+		index []int
+	}
+	current := []queued{}
+	next := []queued{{typ: t}}
+	var count, nextCount map[reflect.Type]int
+	visited := map[reflect.Type]bool{}
+	var fields []jsonField
+
+	for len(next) > 0 {
+		current, next = next, current[:0]
+		count, nextCount = nextCount, map[reflect.Type]int{}
+		for _, q := range current {
+			if visited[q.typ] {
+				continue
+			}
+			visited[q.typ] = true
+			for i := 0; i < q.typ.NumField(); i++ {
+				sf := q.typ.Field(i)
+				if sf.Anonymous {
+					et := sf.Type
+					if et.Kind() == reflect.Pointer {
+						et = et.Elem()
+					}
+					if !sf.IsExported() && et.Kind() != reflect.Struct {
+						continue // embedded field of an unexported non-struct type
+					}
+				} else if !sf.IsExported() {
+					continue
+				}
+				tag := sf.Tag.Get("json")
+				if tag == "-" {
+					continue
+				}
+				name, _, _ := strings.Cut(tag, ",")
+				if !isValidTag(name) {
+					name = ""
+				}
+				index := make([]int, len(q.index)+1)
+				copy(index, q.index)
+				index[len(q.index)] = i
+
+				ft := sf.Type
+				if ft.Name() == "" && ft.Kind() == reflect.Pointer {
+					ft = ft.Elem()
+				}
+				var override *Schema
+				if sf.Anonymous && name == "" && ft.Kind() == reflect.Struct {
+					override = schemas[sf.Type]
+				}
+				if name != "" || !sf.Anonymous || ft.Kind() != reflect.Struct || override != nil {
+					tagged := name != ""
+					if name == "" {
+						name = sf.Name
+					}
+					if override != nil {
+						// Not a member itself: it must neither hide nor be hidden by a field.
+						name = "\x00" + sf.Type.String()
+					}
+					sf.Index = index
+					f := jsonField{sf: sf, name: name, tagged: tagged, override: override}
+					fields = append(fields, f)
+					if count[q.typ] > 1 {
+						// The struct is embedded several times at this depth:
+						// a second copy makes the fields cancel each other below.
+						fields = append(fields, f)
+					}
+					continue
+				}
+				// An embedded struct to explore at the next depth.
+				nextCount[ft]++
+				if nextCount[ft] == 1 {
+					next = append(next, queued{typ: ft, index: index})
+				}
+			}
+		}
+	}
+
+	slices.SortStableFunc(fields, func(a, b jsonField) int {
+		if c := strings.Compare(a.name, b.name); c != 0 {
+			return c
+		}
+		if c := len(a.sf.Index) - len(b.sf.Index); c != 0 {
+			return c
+		}
+		if a.tagged != b.tagged {
+			if a.tagged {
+				return -1
+			}
+			return +1
+		}
+		return slices.Compare(a.sf.Index, b.sf.Index)
+	})
+	// Of the fields with one name, keep the dominant one, if there is one.
+	out := fields[:0]
+	for i := 0; i < len(fields); {
+		j := i + 1
+		for j < len(fields) && fields[j].name == fields[i].name {
+			j++
+		}
+		if j == i+1 || len(fields[i].sf.Index) != len(fields[i+1].sf.Index) || fields[i].tagged != fields[i+1].tagged {
+			out = append(out, fields[i])
+		}
+		i = j
+	}
+	slices.SortFunc(out, func(a, b jsonField) int { return slices.Compare(a.sf.Index, b.sf.Index) })
+	return out
 }
 
 // initialSchemaMap holds types from the standard library that have MarshalJSON methods.
